@@ -762,6 +762,11 @@ def _cmp_get(res, gap, ix, got):
     kind, exp = _expect_get(res, gap, ix)
     if isinstance(exp, dict) or isinstance(got, dict):
         return None if exp == got else 'index %r: expected %r got %r' % (ix, exp, got)
+    if kind == 'asis' and ix['c'] == -1 and res == res.upper():
+        # C04_gap_reverse_slice: for a reversed slice with bounds not below -(number of residues) the property-level reading holds
+        n = len(_degap(res, gap))
+        if all(v is None or v >= -n for v in (ix['a'], ix['b'])) and _degap(got, gap) != _degap(res, gap)[py_ix(ix)]:
+            return 'gap-aware %r of %r: residues %r, the degapped string gives %r' % (ix, res, _degap(got, gap), _degap(res, gap)[py_ix(ix)])
     if kind in ('exact', 'asis'):
         return None if got == exp.upper() else 'index %r of %r (gap %r): str gives %r (upper-cased by the constructor), BioSeq gives %r' % (ix, res, gap, exp.upper(), got)
     if res == res.upper():
@@ -2648,7 +2653,7 @@ def _raw(BioSeq, data):
     return s
 
 
-LEVEL_TEXT = ('Machine-checked Coq theorems (71, all closed under the global context), for every list/str and every integer or None bound: '
+LEVEL_TEXT = ('Machine-checked Coq theorems (73, all closed under the global context), for every list/str and every integer or None bound: '
               'CPython slice normalisation (PySlice_AdjustIndices) yields firstn/skipn of the clamped bounds for contiguous slices, the '
               'slice-length formula and the element law r[k] = s[start + k*step] for every step, s[::-1] = rev s, s[:k] + s[k:] = s, the '
               'negative-index law; BioSeq indexing/slicing, len, +, +=, right + equal the str operation on the residue string; == against any '
@@ -2686,8 +2691,11 @@ LEVEL_TEXT = ('Machine-checked Coq theorems (71, all closed under the global con
               'GAP-AWARE ANY STEP: gap_any_step_as_is (start/stop are mapped to columns by adj - five cases - and the step is applied '
               'to columns; result upper-cased); gap_reverse_whole (for [::-1] "same residues as the degapped slice" survives); '
               'gap_step_refuted: it does NOT survive in general - witnesses "A-CG".sl(gap="-")[::2] = "AC" (degapped "AG") and, with no '
-              'gap at all, "ACG".sl(gap="-")[:-100:-1] = "GC" ("ACG"[:-100:-1] = "GCA"); gap_free_positive_step: for a sequence '
-              'without gap characters and every step > 0 the gap-aware subscript IS the plain one; slice_lower_is_slice_of_upper: '
+              'gap at all, "ACG".sl(gap="-")[:-100:-1] = "GC" ("ACG"[:-100:-1] = "GCA"); gap_free_positive_step / gap_free_any_step: for a sequence '
+              'without gap characters the gap-aware subscript IS the plain one for every step > 0, and for every step at all when no '
+              'bound lies below -len; gap_reverse_slice: for step -1, ANY gaps and every start/stop that is None or >= -(number of '
+              'residues) the claim SURVIVES: the residues of sl(gap=g)[a:b:-1] are degapped[a:b:-1] (proved via getslice_neg1: a step -1 '
+              'slice is the reversed contiguous run, and cuts between columns and residues); slice_lower_is_slice_of_upper: '
               'subscripts commute with upper(), so seq[ix] of a sequence holding lower case = BioSeq(same residues)[ix]; store_concat: '
               'obj + t and t + obj as object-store steps (new object, upper-cased as a whole, lower case of obj included). '
               'The model is tied to sugar by '
